@@ -36,7 +36,8 @@ def one(d):
                 p = subprocess.run(['./check', c, '--tier', 'quick'], cwd=VERIF, env=env, stdout=subprocess.PIPE, stderr=subprocess.STDOUT, text=True)
                 nviol = len(re.findall(r'^VIOLATION', p.stdout, re.M))
                 first = re.search(r'detail: (.*)', p.stdout)
-                res[c] = dict(exit=p.returncode, violations=nviol, first=(first.group(1)[:200] if first else ''))
+                res[c] = dict(exit=p.returncode, violations=nviol, first=(first.group(1)[:200] if first else ''),
+                              spec_deviations=len(re.findall(r'^SPEC-DEVIATION', p.stdout, re.M)))
     finally:
         subprocess.run(['git', '-C', '/repo', 'worktree', 'remove', '--force', wt])
         shutil.rmtree(out, ignore_errors=True)
